@@ -202,6 +202,7 @@ def main(tier, seed):
                 rep.violation("%s: fitting a fresh model twice on equal data gives different forests/predictions" % kind, desc, key="determinism")
     import drive_streams
     nviol += drive_streams.file_models(rep, rng, tier)
+    nviol += drive_streams.caller_matrix(rep, rng, tier)
     rep.corr["model_runs"] = dict(cases=mods["runs"], distribution=mods)
     # ---- (3) the same clauses on LARGE arguments (long vectors, long evaluation histories, training / validation / unlabeled
     #      sets and query batches above 128 / 256 / 1024 rows, more than 64 features), global generators perturbed between fits
